@@ -414,9 +414,9 @@ func TestC31(t *testing.T) {
 						tc := tokenClasses()
 						sig := p.Name + ": descriptor differs at " + reExtName.ReplaceAllString(diff, "[ext]")
 						if swallowed(tc) || commentSwallows(text, f1) {
-							sig += " [a // comment swallows what follows it on the line]"
+							sig = p.Name + ": descriptor changes because a // comment swallows what follows it on the line"
 						}
-						r.Violation("format.changes-descriptor", sig, c.ID, wit(map[string]any{"formatted": witnessText(f1), "token_level_classes": tc}))
+						r.Violation("format.changes-descriptor", sig, c.ID, wit(map[string]any{"differs_at": diff, "formatted": witnessText(f1), "token_level_classes": tc}))
 					}
 				}
 			}
@@ -433,7 +433,7 @@ func TestC31(t *testing.T) {
 			}
 			if f2 != f1 {
 				r.Class("idempotence:differs:" + p.Name)
-				ds := diffClasses(f1, f2, false, true)
+				ds := diffClasses(f1, f2, false, false)
 				if swallowed(classNames(ds)) || commentSwallows(f1, f2) {
 					// Everything else in this diff is a consequence of the swallowing.
 					r.Violation("format.not-idempotent."+p.Name+".token", "the second pass lets a // comment swallow what follows it on the line", c.ID,
